@@ -163,8 +163,12 @@ private:
         opState_.fetch_and(~scopeEndedBit, std::memory_order_acq_rel);
 
     UNIFEX_VERIF_POINT(252);
-    if (use_count(oldState) == 0) {
-      // there are no outstanding operations to wait for
+    if (!scope_ended(oldState) && use_count(oldState) == 0) {
+      // we are the call that ended the scope and there are no outstanding
+      // operations to wait for; a later end_scope() must not signal again:
+      // if there were outstanding operations, the last of them signals, and
+      // signalling here as well would let a joiner destroy the scope while
+      // that operation is still about to touch evt_
       evt_.set();
     }
   }
